@@ -516,6 +516,11 @@ impl<'a> Parser<'a> {
                 continue;
             }
             if self.tokenizer.cur_token.is_question_mark() {
+                if exec_prec > 0 {
+                    // the conditional binds looser than every infix operator:
+                    // let the outermost level build it
+                    return Ok(lhs);
+                }
                 self.next()?;
                 let a = self.parse_expression()?;
                 self.expect(":")?;
